@@ -261,6 +261,7 @@ let run (line : string) : string =
           | _ -> "CNT error")
       | "infer_value" -> Printf.sprintf "CNT %d 0 0 0" (int_of_nat (calls_infer (parse_doc a.(2))))
       | _ -> "ERR BadOp")
+  | "size" -> Printf.sprintf "N %d" (int_of_nat (size (parse_shape a.(1))))
   | "display" -> "TEXT " ^ hex_of_ints (List.map int_of_n (display (parse_shape a.(1))))
   | "ser" -> "TEXT " ^ hex_of_ints (List.map int_of_n (ser_text (parse_shape a.(1))))
   | "roundtrip" -> (
